@@ -263,10 +263,11 @@ CHECKS = {
         "expected_probes": ["failed_by_fault", "reissued_after_fault_ok"],
         "subchecks": [
             {"check": "C12.doc", "mode": "enum", "what": "property trees incl. YAML export / import", "quick": B(60, 25, 1), "thorough": B(3000, 250, 1)},
-            {"check": "C12.doc.insert", "mode": "enum", "what": "property trees with insert / append subscripts (known finding: not retry-safe)",
+            {"check": "C12.doc.insert", "mode": "enum", "what": "property trees, scripts rich in insert / append subscripts (the former known finding, repaired)",
              "quick": B(6, 10, 1), "thorough": B(200, 60, 1)},
             {"check": "C12.array", "mode": "enum", "what": "vnadata objects incl. conversions", "quick": B(120, 20, 1), "thorough": B(5000, 200, 1)},
             {"check": "C12.array.files", "mode": "enum", "what": "vnadata save / load", "quick": B(40, 25, 1), "thorough": B(2000, 250, 1)},
+            {"check": "C12.doc.noretry", "mode": "enum", "what": "property trees: the failed call is NOT re-issued; the tree is re-read through the getters and used on", "quick": B(60, 20, 1), "thorough": B(3000, 200, 1)},
             {"check": "C12.array.noretry", "mode": "enum", "what": "vnadata objects: the failed call is NOT re-issued, the object is used on (model comparison, sanitizers)", "quick": B(80, 20, 1), "thorough": B(4000, 200, 1)},
             {"check": "C12.array.files.noretry", "mode": "enum", "what": "vnadata format / save / load: the failed call is NOT re-issued; later saves are read by the independent readers", "quick": B(60, 25, 1), "thorough": B(3000, 250, 1)},
             {"check": "C12.cal", "mode": "enum", "what": "parameters, sessions, solve, add_calibration, apply", "quick": B(40, 30, 1), "thorough": B(2000, 300, 1)},
